@@ -252,6 +252,67 @@ theorem delta_enu_posvel_roundtrip (cl sl co so : R) (hl : cl ^ 2 + sl ^ 2 = 1) 
 
 end Algebra
 
+/-! ## Part B — the model at `ℝ` -/
+
+section RealAngles
+
+theorem cos_sq_add_sin_sq_real (a : ℝ) : Real.cos a ^ 2 + Real.sin a ^ 2 = 1 := Real.cos_sq_add_sin_sq a
+
+/-- for every real angle the coded `R1`, `R2`, `R3` are proper rotations:
+`RᵀR = RRᵀ = 1`, `det R = +1` -/
+theorem R_rotation_real (a : ℝ) : IsRotation (R1 a) ∧ IsRotation (R2 a) ∧ IsRotation (R3 a) :=
+  ⟨R1_rotation _ _ (cos_sq_add_sin_sq_real a), R2_rotation _ _ (cos_sq_add_sin_sq_real a),
+   R3_rotation _ _ (cos_sq_add_sin_sq_real a)⟩
+
+/-- `R(-a) = R(a)ᵀ` -/
+theorem R_neg_real (a : ℝ) :
+    R1 (-a) = (R1 a).transpose ∧ R2 (-a) = (R2 a).transpose ∧ R3 (-a) = (R3 a).transpose := by
+  have h := R_neg_eq_transpose (Real.cos a) (Real.sin a)
+  simp only [R1, R2, R3, trig_cos, trig_sin, Real.cos_neg, Real.sin_neg]
+  exact h
+
+/-- `R(a) R(b) = R(a + b)` -/
+theorem R_add_real (a b : ℝ) :
+    (R1 a).mul (R1 b) = R1 (a + b) ∧ (R2 a).mul (R2 b) = R2 (a + b) ∧ (R3 a).mul (R3 b) = R3 (a + b) := by
+  have h := R_mul (Real.cos a) (Real.sin a) (Real.cos b) (Real.sin b)
+  simp only [R1, R2, R3, trig_cos, trig_sin, Real.cos_add, Real.sin_add]
+  exact h
+
+/-- the published derivative matrices `dR1`, `dR2`, `dR3` are, entry by entry, the derivatives of
+`R1`, `R2`, `R3` with respect to the angle -/
+theorem dR_hasDerivAt (a : ℝ) (i j : Fin 3) :
+    HasDerivAt (fun t : ℝ => (R1 t).entry i j) ((dR1 a).entry i j) a ∧
+    HasDerivAt (fun t : ℝ => (R2 t).entry i j) ((dR2 a).entry i j) a ∧
+    HasDerivAt (fun t : ℝ => (R3 t).entry i j) ((dR3 a).entry i j) a := by
+  have hc := Real.hasDerivAt_cos a
+  have hs := Real.hasDerivAt_sin a
+  have hns := hs.neg
+  have h0 := hasDerivAt_const a (0 : ℝ)
+  have h1 := hasDerivAt_const a (1 : ℝ)
+  refine ⟨?_, ?_, ?_⟩ <;> fin_cases i <;> fin_cases j <;>
+    simp only [R1, R2, R3, dR1, dR2, dR3, R1cs, R2cs, R3cs, dR1cs, dR2cs, dR3cs, M3.entry, trig_cos, trig_sin] <;>
+    first | exact h0 | exact hc | exact hs | exact hns | simpa using h1
+
+/-- for every latitude and longitude `enu2trs` and `trs2enu` are proper rotations and each
+other's transpose (inverse) -/
+theorem enu_rotation_real (lat lon : ℝ) :
+    IsRotation (enu2trs lat lon) ∧ IsRotation (trs2enu lat lon) ∧
+      trs2enu lat lon = (enu2trs lat lon).transpose :=
+  ⟨enu2trs_rotation _ _ _ _ (cos_sq_add_sin_sq_real lat) (cos_sq_add_sin_sq_real lon),
+   trs2enu_rotation _ _ _ _ (cos_sq_add_sin_sq_real lat) (cos_sq_add_sin_sq_real lon),
+   trs2enu_eq_transpose _ _ _ _⟩
+
+/-- the docstring of `rotation.enu2trs`: `enu2trs(lat, lon) = R3(-(π/2 + lon)) @ R1(-(π/2 - lat))` -/
+theorem enu2trs_eq_R3_R1_real (lat lon : ℝ) :
+    enu2trs lat lon = (R3 (-(Real.pi / 2 + lon))).mul (R1 (-(Real.pi / 2 - lat))) := by
+  have h := enu2trs_eq_R3_R1 (Real.cos lat) (Real.sin lat) (Real.cos lon) (Real.sin lon)
+  simp only [enu2trs, R3, R1, trig_cos, trig_sin, Real.cos_neg, Real.sin_neg, Real.cos_pi_div_two_sub,
+    Real.sin_pi_div_two_sub, Real.cos_add, Real.sin_add, Real.cos_pi_div_two, Real.sin_pi_div_two,
+    zero_mul, one_mul, zero_sub, add_zero]
+  exact h
+
+end RealAngles
+
 /-! ### the registered conversion graph is the modelled one -/
 
 /-- which model function stands for which registered converter -/
@@ -276,4 +337,45 @@ theorem registered_conversions :
       ∃ d ∈ Midgard.Generated.PositionSystems.conversions, d.1 = c.1 ∧ d.2.1 = c.2.2.1 ∧ d.2.2.1 = c.2.1 := by
   decide +kernel
 
+/-! ### non-vacuity: exact Pythagorean pairs (the `Rat` runs of the driver) -/
+
+example : IsRotation (R1cs (3 / 5 : ℚ) (4 / 5)) := R1_rotation _ _ (by norm_num)
+example : IsRotation (enu2trsCS (3 / 5 : ℚ) (4 / 5) (5 / 13) (-12 / 13)) :=
+  enu2trs_rotation _ _ _ _ (by norm_num) (by norm_num)
+example : enuUpCS (3 / 5 : ℚ) (4 / 5) (5 / 13) (-12 / 13) = ⟨3 / 13, -36 / 65, 4 / 5⟩ := by
+  simp only [enuUpCS, enu2trsCS, M3.col3]; norm_num
+
 end Midgard.Props.C06
+
+#print axioms Midgard.Props.C06.R1_rotation
+#print axioms Midgard.Props.C06.R2_rotation
+#print axioms Midgard.Props.C06.R3_rotation
+#print axioms Midgard.Props.C06.R_neg_eq_transpose
+#print axioms Midgard.Props.C06.R_mul
+#print axioms Midgard.Props.C06.dR_eq_quarter_turn
+#print axioms Midgard.Props.C06.dot_preserved
+#print axioms Midgard.Props.C06.norm_preserved
+#print axioms Midgard.Props.C06.mulVec_transpose_cancel
+#print axioms Midgard.Props.C06.transpose_transpose
+#print axioms Midgard.Props.C06.mulVec_cancel_transpose
+#print axioms Midgard.Props.C06.enu2trs_rotation
+#print axioms Midgard.Props.C06.trs2enu_eq_transpose
+#print axioms Midgard.Props.C06.trs2enu_rotation
+#print axioms Midgard.Props.C06.enu2trs_eq_R3_R1
+#print axioms Midgard.Props.C06.delta_enu_roundtrip
+#print axioms Midgard.Props.C06.delta_enu_dot_preserved
+#print axioms Midgard.Props.C06.up_is_normal
+#print axioms Midgard.Props.C06.east_perp_axis_up
+#print axioms Midgard.Props.C06.north_completes_triad
+#print axioms Midgard.Props.C06.enu_components_are_projections
+#print axioms Midgard.Props.C06.blockDiag_mulVec
+#print axioms Midgard.Props.C06.block6_orth
+#print axioms Midgard.Props.C06.delta_enu_posvel_roundtrip
+#print axioms Midgard.Props.C06.cos_sq_add_sin_sq_real
+#print axioms Midgard.Props.C06.R_rotation_real
+#print axioms Midgard.Props.C06.R_neg_real
+#print axioms Midgard.Props.C06.R_add_real
+#print axioms Midgard.Props.C06.dR_hasDerivAt
+#print axioms Midgard.Props.C06.enu_rotation_real
+#print axioms Midgard.Props.C06.enu2trs_eq_R3_R1_real
+#print axioms Midgard.Props.C06.registered_conversions
